@@ -5,3 +5,4 @@ import SV.Props.C05
 import SV.Props.C10
 import SV.Props.C11
 import SV.Props.C06
+import SV.Props.C07
